@@ -13,7 +13,7 @@ from hypothesis import HealthCheck, Phase, given, seed as hseed, settings
 from hypothesis import strategies as st
 from hypothesis.stateful import RuleBasedStateMachine, invariant, precondition, rule, run_state_machine_as_test
 
-from .. import REPO_SRC, VERIF_DIR
+from .. import REPO_SRC, VERIF_DIR, die_with_parent
 from .. import strategies as S
 from ..unit import Outcome, Unit
 
@@ -117,7 +117,7 @@ def scan_in_subprocess(docs, hashseed, cli=False, include=None):
         with open(p, "w") as f:
             json.dump({"include": include, "docs": [{"data": x["data"].hex(), "depth": x.get("depth")} for x in docs]}, f)
         env = dict(os.environ, PYTHONHASHSEED=str(hashseed))
-        r = subprocess.run([sys.executable, "-m", "vf.scanjson", p] + (["cli"] if cli else []), cwd=VERIF_DIR, env=env, capture_output=True, text=True, timeout=1800)
+        r = subprocess.run([sys.executable, "-m", "vf.scanjson", p] + (["cli"] if cli else []), cwd=VERIF_DIR, env=env, capture_output=True, text=True, timeout=1800, preexec_fn=die_with_parent)
         if r.returncode != 0:
             raise RuntimeError("scanjson failed under PYTHONHASHSEED=%s: %s" % (hashseed, r.stderr[-800:]))
         return json.loads(r.stdout.strip().splitlines()[-1])
